@@ -470,10 +470,11 @@ public:
       return nondet ? 2 : (found.empty() ? 0 : 1);
     }
     if (nondet) {
-      std::printf("HARNESS-ERROR property=%s: %llu run(s) did not repeat bit-identically\n", Prop::id,
-        (unsigned long long)nondet);
-      cleanup();
-      return 2;
+      // Runs whose event log differs between two executions in the same process. On a correct tree this is a
+      // harness defect (exit 2). It also happens when the code under test reads indeterminate memory (e.g. an
+      // out-of-bounds read); violations are still decided below - each of them must reproduce twice in isolated
+      // processes and once more from its replay file - and only if none is established does the check exit 2.
+      std::printf("note: %llu run(s) did not repeat bit-identically inside a worker\n", (unsigned long long)nondet);
     }
 
     // ---- decide violations: gate, shrink, replay, known-findings filter
@@ -488,6 +489,7 @@ public:
     std::set<std::string> knownPrinted;
     for (auto & kv : byClass) {
       int tried = 0; bool decided = false;
+      if (kv.first == "nondeterministic") {continue;}
       if (kv.first.rfind("harness:", 0) == 0) {
         std::printf("HARNESS-ERROR property=%s: %s (%s) in %zu run(s), first run %llu\n", Prop::id, kv.first.c_str(),
           kv.second.front().detail.c_str(), kv.second.size(), (unsigned long long)kv.second.front().index);
@@ -597,6 +599,7 @@ public:
     cov.set("batch_digest", fmt("%016llx", (unsigned long long)digest));
     cov.set("determinism_rechecks_in_batch", rechecks);
     cov.set("budget_truncated_runs", truncated);
+    cov.set("runs_not_repeating_bit_identically", nondet);
     Json faults = Json::object(), probes = Json::object(), ops = Json::object(), other = Json::object();
     std::map<std::string, std::pair<uint64_t, uint64_t>> fk;
     for (auto & c : counters) {
@@ -636,11 +639,12 @@ public:
     ev.writeFile(opt_.out + "/evidence/" + Prop::id + ".json");
     cleanup();
 
-    if (harnessErr) {
+    if (nViol) {return 1;}
+    if (harnessErr || nondet) {
+      if (nondet) {std::printf("HARNESS-ERROR property=%s: %llu run(s) did not repeat bit-identically and no violation was established\n", Prop::id, (unsigned long long)nondet);}
       std::printf("%s: harness error (exit 2) - not a statement about the library\n", Prop::id);
       return 2;
     }
-    if (nViol) {return 1;}
     std::printf("%s: OK - %llu runs, %llu distinct non-trivial plans, %d known finding(s), %.1f s\n",
       Prop::id, (unsigned long long)runs, (unsigned long long)nNontrivial, nKnown, wall);
     return 0;
